@@ -33,7 +33,10 @@ CRATE = "unicode-segmentation"
 
 def locked_version():
     repo = os.environ.get("VERIF_REPO", "/repo").rstrip("/")
-    lock = open(os.path.join(repo, "Cargo.lock")).read()
+    lockp = os.path.join(repo, "Cargo.lock")
+    if not os.path.exists(lockp):  # a scratch worktree has no lock file of its own (Cargo.lock is git-ignored in /repo)
+        lockp = "/repo/Cargo.lock"
+    lock = open(lockp).read()
     m = re.search(r'\[\[package\]\]\s*name = "%s"\s*version = "([^"]+)"' % re.escape(CRATE), lock)
     if not m:
         sys.exit(f"gen_uax29: {CRATE} not found in {repo}/Cargo.lock")
